@@ -17,7 +17,12 @@
 //!             readers: validates the reader model itself.
 //! * `KPair`   `quoted(name)=quoted(value)` as one argument (the `alias`
 //!             listing format).
-//! * `KListing` state listings re-evaluated by a fresh shell (see `listing`).
+//! * `KLine` kind 3: array values `x=( ... )` (elements read through the API).
+//! * `KUmask`  `umask` / `umask -S` output for a mask and the mask after
+//!             `umask -- OPERAND` (octal, symbolic, malformed) against the
+//!             umask model; all 512 masks in the thorough tier.
+//! * `KListing` state listings re-evaluated by a fresh shell (see `listing`),
+//!             at top level and from inside functions / subshells / eval.
 
 use yash_env::variable::Scope;
 use yv_harness::cli::Args;
@@ -261,7 +266,7 @@ mod listing {
         "{ args 1 | cat; }",
     ];
 
-    const DASH_NAMES: &[&str] = &["-x", "-r", "--", "-", "-p", "-a b", "-f", "+x"];
+    const DASH_NAMES: &[&str] = &["-x", "-r", "--", "-", "-p", "-a b", "-f", "+x", "-v w", "-r x", "-'q", "-*", "- -", "-x\ty", "-$v"];
 
     fn odd_name(r: &mut Rng) -> String {
         if r.chance(5, 10) {
@@ -559,6 +564,23 @@ mod listing {
                     defs.push_str(&format!("readonly {}\n", sq(&format!("{ident}={v}"))));
                     frozen.push(ident);
                 }
+                6 if r.chance(1, 2) => {
+                    // an array whose name starts with `-` (assignment syntax takes any literal name)
+                    let name = *r.pick(&["-arr", "-a", "-x", "--"]);
+                    if !frozen.iter().any(|f| f == name) {
+                        let k = r.below(3);
+                        let vals: Vec<String> = (0..k).map(|_| sq(&random_string(r, 6))).collect();
+                        defs.push_str(&format!("{name}=({})\n", vals.join(" ")));
+                        match r.below(3) {
+                            0 => defs.push_str(&format!("export -- {name}\n")),
+                            1 => {
+                                defs.push_str(&format!("readonly -- {name}\n"));
+                                frozen.push(name.to_string());
+                            }
+                            _ => {}
+                        }
+                    }
+                }
                 6 => defs.push_str(&format!("typeset -x {}\n", sq(&ident))),
                 7 => {
                     defs.push_str(&format!("export {ident}; readonly {ident}={}\n", sq(&v)));
@@ -587,12 +609,14 @@ mod listing {
         // ---- hand-written listings first -------------------------------------
         round_trip(
             w, 0, "alias",
-            "alias 'a b=c d' -- '-x=y' 'if=then' '~=~' \"a'=b\\\"c\" '=x' '--=v' 'ls=ls -F' 'nl=a\nb' 'sp= ' 'e='\n",
+            "alias 'a b=c d' -- '-x=y' 'if=then' '~=~' \"a'=b\\\"c\" '=x' '--=v' 'ls=ls -F' 'nl=a\nb' 'sp= ' 'e=' 'cr=a\rb' 'vt=\u{b}' 'ff=x\u{c}y'\n",
             "alias",
             |printed| format!("alias -- {}\n", split_entries(printed).join(" ")),
             |s| s.aliases.clone(), &[],
         );
         let vars = "typeset -- '-x=2' 'a b=1' \"q'=5\" 'c[=]' 'n\nl=v' '~=t' '#=h'\nexport 'e f=3' E=\nreadonly 'r=4' R\n\
+                    typeset -- '-v w=1'\nexport -- '-e f=2'\nreadonly -- '-r x=3'\n-arr=(1 'a b')\nexport -- -arr\n-ro=(x)\nreadonly -- -ro\n\
+                    cr='a\rb' vt='a\u{b}b' ff='a\u{c}b' crs=('a\rb' '\u{b}' 'x\u{c}')\n\
                     arr=(1 '' \"'\\\\'\" '*' '~' 'a b')\nempty=()\ntypeset -x arrx\nx='a:~' y='~' z='#' w=\\\\\n";
         round_trip(w, 11, "set", vars, "set", |p| p.to_string(),
             |s| var_proj(s, |v| is_name(&v.0) && !v.3.starts_with('N'), false)
@@ -603,7 +627,7 @@ mod listing {
         round_trip(w, 4, "readonly -p", vars, "readonly -p", |p| p.to_string(), |s| var_proj(s, |v| v.2, false), &[]);
         round_trip(w, 5, "typeset -p", vars, "typeset -p", |p| p.to_string(), |s| var_proj(s, |_| true, true), &[]);
         round_trip(w, 2, "trap",
-            "trap -- 'echo \"x\"' INT\ntrap '' TERM\ntrap - QUIT\ntrap -- '-x' HUP\ntrap -- \"a'b\" EXIT\ntrap -- '#' USR1\n",
+            "trap -- 'echo \"x\"' INT\ntrap '' TERM\ntrap - QUIT\ntrap -- '-x' HUP\ntrap -- \"a'b\" EXIT\ntrap -- '#' USR1\ntrap -- 'a\rb' USR2\n",
             "trap", |p| p.to_string(), |s| s.traps.clone(), &[]);
         round_trip(w, 9, "typeset -fp",
             "f() { args \"$1\" 'x y'; }\n'-f'() { args 1; }\n'+'() (args 2)\n'a.b'() { args 3; }\ntypeset -fr f\ntypeset -fr -- -f\n",
@@ -954,16 +978,32 @@ fn json_reading(r: &Reading) -> String {
 /// non-ASCII blanks, NEL, a letter and a digit.
 pub const SPECIAL: &[char] = &[
     ';', '&', '|', '(', ')', '<', '>', ' ', '\t', '\n', '$', '`', '\\', '"', '\'', '=', '*', '?',
-    '#', '~', ':', '{', '}', '[', ']', '!', '^', '-', '/', 'a', '1', '\u{a0}', '\u{3000}', '%',
+    '#', '~', ':', '{', '}', '[', ']', '!', '^', '-', '/', 'a', '1', '\u{a0}', '\u{3000}', '%', '\r',
+    '\u{b}', '\u{c}',
 ];
 
 /// Dropped from the alphabet of the length-4 enumeration: one operator
 /// character of each kind, one ASCII and one non-ASCII blank stay.
-pub const LEN4_DROPPED: &[char] = &['|', ')', '>', '\t', '\u{a0}', '^', '%', '1'];
+pub const LEN4_DROPPED: &[char] = &['|', ')', '>', '\t', '\u{a0}', '^', '%', '1', '\u{b}', '\u{c}'];
 
 const ORDINARY: &[char] = &['a', 'b', 'x', 'Z', '0', '1', '_', '.', ',', '+', '@', '%', 'é', 'ß', '\u{2003}', '\u{85}', '\u{feff}', '\u{200b}', '\r', '\u{b}', '\u{c}', '\u{1}', '\u{7f}', '世'];
 
 pub fn random_string(r: &mut Rng, max_len: usize) -> String {
+    if r.chance(1, 10) {
+        // nothing but CR / VT / FF forces quoting (a line from a CRLF file, ...)
+        let mut s = String::new();
+        for _ in 0..1 + r.below(4) {
+            if r.chance(1, 2) {
+                s.push(*r.pick(&['\r', '\u{b}', '\u{c}']));
+            } else {
+                s.push(*r.pick(&['a', 'b', 'Z', '0', '_', '.', '/', '-', '+', ',', '%', '@']));
+            }
+        }
+        if !s.contains(['\r', '\u{b}', '\u{c}']) {
+            s.push(*r.pick(&['\r', '\u{b}', '\u{c}']));
+        }
+        return s;
+    }
     let len = match r.below(10) {
         0 => 0,
         1..=4 => 1 + r.below(4),
@@ -1094,6 +1134,52 @@ fn quote_stream(w: &mut CasesWriter, strings: &[String]) {
     }
 }
 
+/// `x=TEXT` where TEXT is meant to be an array value `( ... )`: the elements x
+/// has afterwards (read through the API), `None` if x is not an array.
+fn read_array(text: &str) -> Reading {
+    let (o, snap) = listing::run_capture(&format!("x={text}"));
+    if o.panicked.is_some() {
+        return None;
+    }
+    let v = snap?.vars.into_iter().find(|v| v.0 == "x")?;
+    let enc = v.3;
+    if !enc.starts_with('A') {
+        return None;
+    }
+    let mut parts = enc.split('\u{1f}');
+    parts.next();
+    Some(parts.map(|s| s.to_string()).collect())
+}
+
+fn array_line_stream(w: &mut CasesWriter, r: &mut Rng, n: usize) {
+    for k in 0..n {
+        let mut rr = r.fork(0xa77a + k as u64);
+        let mut text = String::from("(");
+        for i in 0..rr.below(4) {
+            if i > 0 || rr.chance(1, 5) {
+                text.push_str(*rr.pick(&[" ", " ", "  ", "\t", "\n", " #c'\n", "\u{3000}", "\\\n "]));
+            }
+            text.push_str(&random_line(&mut rr, true));
+        }
+        match rr.below(12) {
+            0 => {}                       // unclosed
+            1 => text.push_str(" )"),
+            2 => text.push_str(";)"),
+            _ => text.push(')'),
+        }
+        let reading = read_array(&text);
+        w.count("line:kind3(array)");
+        w.count(if reading.is_some() { "line:read" } else { "line:rejected" });
+        let term = format!("(KLine {} {} {})", coq::n(3), coq::s(&text), coq_reading(&reading));
+        let json = format!(
+            "{{\"stream\":\"line\",\"kind\":3,\"text\":{},\"read\":{}}}",
+            json_str(&text),
+            json_reading(&reading)
+        );
+        w.push(&term, &json, &[], Some(format!("L3{text}")));
+    }
+}
+
 fn line_stream(w: &mut CasesWriter, r: &mut Rng, n: usize) {
     for k in 0..n {
         let mut rr = r.fork(k as u64);
@@ -1120,8 +1206,17 @@ fn ws_case(w: &mut CasesWriter) {
         .filter(|c| c.is_whitespace())
         .map(|c| format!("{}", c as u32))
         .collect();
-    let term = format!("(KWs [{}]%N)", table.join("; "));
-    let json = format!("{{\"stream\":\"whitespace-table\",\"code_points\":[{}]}}", table.join(","));
+    let delims: Vec<String> = (0..=0x10FFFFu32)
+        .filter_map(char::from_u32)
+        .filter(|c| yash_syntax::parser::lex::is_token_delimiter_char(*c))
+        .map(|c| format!("{}", c as u32))
+        .collect();
+    let term = format!("(KWs [{}]%N [{}]%N)", table.join("; "), delims.join("; "));
+    let json = format!(
+        "{{\"stream\":\"whitespace-table\",\"code_points\":[{}],\"token_delimiters\":[{}]}}",
+        table.join(","),
+        delims.join(",")
+    );
     w.count("ws-table");
     w.push(&term, &json, &[], None);
 }
@@ -1281,6 +1376,70 @@ fn exh_blocks(w: &mut CasesWriter, jobs: &[(Vec<char>, String, usize)]) {
     }
 }
 
+/// An operand for `umask`: octal (valid or not), symbolic (structured or
+/// random over the alphabet of the notation), or a real `umask -S` output.
+fn umask_operand(r: &mut Rng) -> String {
+    match r.below(8) {
+        0 => format!("{:o}", r.below(0o1000)),
+        1 => format!("{:03o}", r.below(0o1000)),
+        2 => r.pick(&["0", "7777", "1777", "8", "0o7", "77777777", "200000", "177777", "09", "1x", "00022"]).to_string(),
+        3 | 4 => {
+            // structured: clauses of who* (op perm*)+
+            let mut s = String::new();
+            for i in 0..1 + r.below(3) {
+                if i > 0 {
+                    s.push(',');
+                }
+                for _ in 0..r.below(3) {
+                    s.push(*r.pick(&['u', 'g', 'o', 'a']));
+                }
+                for _ in 0..1 + r.below(2) {
+                    s.push(*r.pick(&['+', '-', '=']));
+                    if r.chance(1, 4) {
+                        s.push(*r.pick(&['u', 'g', 'o']));
+                    } else {
+                        for _ in 0..r.below(4) {
+                            s.push(*r.pick(&['r', 'w', 'x', 'X', 's']));
+                        }
+                    }
+                }
+            }
+            s
+        }
+        5 => yash_builtin::umask::format::format_symbolic(r.below(0o1000) as u16),
+        _ => {
+            let n = r.below(8);
+            (0..n).map(|_| *r.pick(&['u', 'g', 'o', 'a', '+', '-', '=', 'r', 'w', 'x', 'X', 's', ',', ',', '=', 'z', '1'])).collect()
+        }
+    }
+}
+
+fn umask_case(w: &mut CasesWriter, bits: u32, operand: &str) {
+    let script = format!("umask {bits:o}\numask\numask -S\numask -- {}\n", listing::sq(operand));
+    let (o, snap) = listing::run_capture(&script);
+    let mut lines = o.stdout.lines();
+    let oct = lines.next().unwrap_or("").to_string();
+    let sym = lines.next().unwrap_or("").to_string();
+    let result = snap.and_then(|s| u64::from_str_radix(&s.umask, 8).ok()).unwrap_or(u64::MAX >> 1);
+    w.count("umask");
+    w.count(if result == bits as u64 { "umask:mask-unchanged" } else { "umask:mask-changed" });
+    let term = format!(
+        "(KUmask {} {} {} {} {})",
+        coq::n(bits as u64),
+        coq::s(&oct),
+        coq::s(&sym),
+        coq::s(operand),
+        coq::n(result)
+    );
+    let json = format!(
+        "{{\"stream\":\"umask\",\"mask\":\"{bits:o}\",\"umask\":{},\"umask -S\":{},\"operand\":{},\"mask_after\":\"{result:o}\"}}",
+        json_str(&oct),
+        json_str(&sym),
+        json_str(operand)
+    );
+    w.push(&term, &json, &[], Some(format!("U{bits}/{operand}")));
+}
+
 fn pair_case(w: &mut CasesWriter, n: &str, v: &str, files: &[&str], tags: &[&str]) {
     let line = format!("{}={}", yash_quote::quoted(n), yash_quote::quoted(v));
     let reading = reading_of(&run(&script_of(0, &line), files));
@@ -1329,7 +1488,7 @@ fn main() {
         "if", "then", "{", "}", "!", "[[", "1", "12", "2>", ";", "&", "|", "(", ")", "<", ">",
         ";;", "&&", "||", "a;b", "a&b", "a|b", "a(b", "a)b", "a<b", "a>b", "'a'", "\"a\"",
         "a'$x'\"`y`\"\\z", "x=a:~", "/", "/*", "a/b", "~/a", "a:~/b", "%", "^", "a,b", "\r", "\u{b}",
-        "'~", "':~", "'*", "'?", "'[a]", "'#", "' ", "'\t", "'\n", "';", "'=",
+        "a\rb", "\u{c}", "a\u{b}", "\r\n", "a\r", "'\r", "'~", "':~", "'*", "'?", "'[a]", "'#", "' ", "'\t", "'\n", "';", "'=",
     ]
     .iter()
     .map(|s| s.to_string())
@@ -1365,7 +1524,7 @@ fn main() {
             }
         }
     } else {
-        let alpha: Vec<char> = "a '\"\\$~:[]#=*\n".chars().collect();
+        let alpha: Vec<char> = "a '\"\\$~:[]#=*\n\r".chars().collect();
         for d in 0..=3 {
             jobs.push((alpha.clone(), String::new(), d));
         }
@@ -1384,6 +1543,7 @@ fn main() {
     // ---- arbitrary lines -------------------------------------------------------
     let mut r = rng.fork(2);
     line_stream(&mut w, &mut r, args.scale(500, 12000));
+    array_line_stream(&mut w, &mut r, args.scale(150, 3000));
 
     // ---- pairs -------------------------------------------------------------------
     let mut r = rng.fork(3);
@@ -1399,6 +1559,24 @@ fn main() {
             continue;
         }
         pair_case(&mut w, &n, &v, &[], &[]);
+    }
+
+    // ---- umask: printers and operand parser against the model -------------------------
+    {
+        let mut r = rng.fork(5);
+        let masks: Vec<u32> = if args.thorough() {
+            (0..512).collect()
+        } else {
+            let mut v: Vec<u32> = vec![0, 0o22, 0o77, 0o777, 0o27, 0o133, 0o644, 0o400];
+            v.extend((0..40).map(|_| r.below(512) as u32));
+            v
+        };
+        for bits in masks {
+            for _ in 0..2 {
+                let operand = umask_operand(&mut r);
+                umask_case(&mut w, bits, &operand);
+            }
+        }
     }
 
     // ---- listings ------------------------------------------------------------------
